@@ -1,4 +1,4 @@
 SPECIFICATION ASpec
 CONSTANTS
-  Labels = {"", "probe00", "a"}
+  Labels = {"", "probe00", "s"}
 INVARIANT EmitCase
